@@ -1,5 +1,5 @@
 // auto-generated: "lalrpop 0.23.1"
-// sha3: 874080a816c5d858fcaadbe7a13072bb367b4b7c9a390bd3ac2863edc221adb1
+// sha3: 74781813449590b4ee733c83224a25b69091276c23669ae235883fa41e84bbba
 use crate::rt::*;
 #[allow(unused_extern_crates)]
 extern crate lalrpop_util as __lalrpop_util;
@@ -610,14 +610,12 @@ fn __action1<
 >(
     (_, l, _): (i64, i64, i64),
     (_, c0, _): (i64, Tree, i64),
-    (_, pL1, _): (i64, i64, i64),
     (_, c1, _): (i64, Tok, i64),
     (_, c2, _): (i64, Tree, i64),
-    (_, pR3, _): (i64, i64, i64),
     (_, r, _): (i64, i64, i64),
 ) -> Tree
 {
-    { probe("E#0", 1, 'L', pL1); probe("E#0", 3, 'R', pR3); node("E#0", l, r, vec![Tree::from(c0), Tree::from(c1), Tree::from(c2)]) }
+    node("E#0", l, r, vec![Tree::from(c0), Tree::from(c1), Tree::from(c2)])
 }
 
 #[allow(clippy::too_many_arguments, clippy::needless_lifetimes, clippy::just_underscores_and_digits, clippy::extra_unused_type_parameters)]
@@ -649,11 +647,10 @@ fn __action4<
 >(
     (_, l, _): (i64, i64, i64),
     (_, c0, _): (i64, Tree, i64),
-    (_, pR1, _): (i64, i64, i64),
     (_, r, _): (i64, i64, i64),
 ) -> Tree
 {
-    { probe("T#1", 1, 'R', pR1); node("T#1", l, r, vec![Tree::from(c0)]) }
+    node("T#1", l, r, vec![Tree::from(c0)])
 }
 
 #[allow(clippy::too_many_arguments, clippy::needless_lifetimes, clippy::just_underscores_and_digits, clippy::extra_unused_type_parameters)]
@@ -663,23 +660,21 @@ fn __action5<
     (_, c0, _): (i64, Tok, i64),
     (_, c1, _): (i64, Tree, i64),
     (_, c2, _): (i64, Tok, i64),
-    (_, pL3, _): (i64, i64, i64),
     (_, r, _): (i64, i64, i64),
 ) -> Tree
 {
-    { probe("F#0", 3, 'L', pL3); node("F#0", l, r, vec![Tree::from(c0), Tree::from(c1), Tree::from(c2)]) }
+    node("F#0", l, r, vec![Tree::from(c0), Tree::from(c1), Tree::from(c2)])
 }
 
 #[allow(clippy::too_many_arguments, clippy::needless_lifetimes, clippy::just_underscores_and_digits, clippy::extra_unused_type_parameters)]
 fn __action6<
 >(
     (_, l, _): (i64, i64, i64),
-    (_, pL0, _): (i64, i64, i64),
     (_, c0, _): (i64, Tok, i64),
     (_, r, _): (i64, i64, i64),
 ) -> Tree
 {
-    { probe("F#1", 0, 'L', pL0); node("F#1", l, r, vec![Tree::from(c0)]) }
+    node("F#1", l, r, vec![Tree::from(c0)])
 }
 
 #[allow(clippy::needless_lifetimes, clippy::clone_on_copy)]
@@ -710,31 +705,21 @@ fn __action9<
     __1: (i64, Tok, i64),
     __2: (i64, Tree, i64),
     __3: (i64, i64, i64),
-    __4: (i64, i64, i64),
 ) -> Tree
 {
     let __start0 = __0.0.clone();
     let __end0 = __0.0.clone();
-    let __start1 = __0.2.clone();
-    let __end1 = __1.0.clone();
     let __temp0 = __action8(
         &__start0,
         &__end0,
     );
     let __temp0 = (__start0, __temp0, __end0);
-    let __temp1 = __action8(
-        &__start1,
-        &__end1,
-    );
-    let __temp1 = (__start1, __temp1, __end1);
     __action1(
         __temp0,
         __0,
-        __temp1,
         __1,
         __2,
         __3,
-        __4,
     )
 }
 
@@ -772,24 +757,16 @@ fn __action11<
 {
     let __start0 = __0.0.clone();
     let __end0 = __0.0.clone();
-    let __start1 = __2.2.clone();
-    let __end1 = __3.0.clone();
     let __temp0 = __action8(
         &__start0,
         &__end0,
     );
     let __temp0 = (__start0, __temp0, __end0);
-    let __temp1 = __action8(
-        &__start1,
-        &__end1,
-    );
-    let __temp1 = (__start1, __temp1, __end1);
     __action5(
         __temp0,
         __0,
         __1,
         __2,
-        __temp1,
         __3,
     )
 }
@@ -804,21 +781,13 @@ fn __action12<
 {
     let __start0 = __0.0.clone();
     let __end0 = __0.0.clone();
-    let __start1 = __0.0.clone();
-    let __end1 = __0.0.clone();
     let __temp0 = __action8(
         &__start0,
         &__end0,
     );
     let __temp0 = (__start0, __temp0, __end0);
-    let __temp1 = __action8(
-        &__start1,
-        &__end1,
-    );
-    let __temp1 = (__start1, __temp1, __end1);
     __action6(
         __temp0,
-        __temp1,
         __0,
         __1,
     )
@@ -856,7 +825,6 @@ fn __action14<
 >(
     __0: (i64, Tree, i64),
     __1: (i64, i64, i64),
-    __2: (i64, i64, i64),
 ) -> Tree
 {
     let __start0 = __0.0.clone();
@@ -870,7 +838,6 @@ fn __action14<
         __temp0,
         __0,
         __1,
-        __2,
     )
 }
 
@@ -885,24 +852,16 @@ fn __action15<
 {
     let __start0 = __2.2.clone();
     let __end0 = __2.2.clone();
-    let __start1 = __2.2.clone();
-    let __end1 = __2.2.clone();
     let __temp0 = __action7(
         &__start0,
         &__end0,
     );
     let __temp0 = (__start0, __temp0, __end0);
-    let __temp1 = __action7(
-        &__start1,
-        &__end1,
-    );
-    let __temp1 = (__start1, __temp1, __end1);
     __action9(
         __0,
         __1,
         __2,
         __temp0,
-        __temp1,
     )
 }
 
@@ -1003,22 +962,14 @@ fn __action20<
 {
     let __start0 = __0.2.clone();
     let __end0 = __0.2.clone();
-    let __start1 = __0.2.clone();
-    let __end1 = __0.2.clone();
     let __temp0 = __action7(
         &__start0,
         &__end0,
     );
     let __temp0 = (__start0, __temp0, __end0);
-    let __temp1 = __action7(
-        &__start1,
-        &__end1,
-    );
-    let __temp1 = (__start1, __temp1, __end1);
     __action14(
         __0,
         __temp0,
-        __temp1,
     )
 }
 
